@@ -77,6 +77,13 @@ func (m *Mutex) Unlock() {
 	m.mu.Unlock()
 }
 
+// CanAcquire reports whether a Lock would succeed without blocking (scheduler introspection).
+func (m *Mutex) CanAcquire(kind string) bool {
+	m.mu.Lock()
+	defer m.mu.Unlock()
+	return !m.locked
+}
+
 // Held reports whether the mutex is currently locked (harness introspection).
 func (m *Mutex) Held() bool {
 	m.mu.Lock()
@@ -202,6 +209,16 @@ func (m *RWMutex) RUnlock() {
 	for _, w := range ws {
 		close(w)
 	}
+}
+
+// CanAcquire reports whether Lock ("lock") / RLock ("rlock") would succeed without blocking.
+func (m *RWMutex) CanAcquire(kind string) bool {
+	m.mu.Lock()
+	defer m.mu.Unlock()
+	if kind == "rlock" {
+		return !m.writer && len(m.waiters) == 0
+	}
+	return !m.writer && m.readers == 0 && len(m.waiters) == 0
 }
 
 type rlocker RWMutex
